@@ -48,7 +48,15 @@ type Finding struct {
 	KnownID   string            `json:"known_id,omitempty"`
 	Inputs    map[string]string `json:"inputs"`
 	Decisions []int             `json:"decisions"`
+	Choices   map[string]int    `json:"choices,omitempty"`
 	Solver    string            `json:"solver,omitempty"`
+}
+
+// Witness is the model of a passing path (translator validation).
+type Witness struct {
+	Inputs    map[string]string
+	Choices   map[string]int
+	Decisions []int
 }
 
 // PathResult summarises one explored path.
@@ -69,6 +77,7 @@ type PathResult struct {
 	Unknowns    []string
 	Observes    []string
 	Choices     map[string]int
+	Witness     *Witness
 	Stats       smt.Stats
 }
 
@@ -113,6 +122,7 @@ type Options struct {
 	Explore      int             // preemption bound; -1 = default scheduler
 	Params       map[string]int
 	Seed         int64
+	Witnesses    int // number of passing-path models to collect for translator validation
 }
 
 func (p *pathState) nextDecision() (int, bool) {
@@ -340,7 +350,7 @@ func (p *pathState) checkAssert(site string, c *smt.Term, msg string) {
 	r, who := p.decide(extra)
 	switch r {
 	case smt.Sat:
-		f := Finding{Site: site, Kind: "assert", Msg: msg, Decisions: append([]int(nil), p.decisions...), Solver: who}
+		f := Finding{Site: site, Kind: "assert", Msg: msg, Decisions: append([]int(nil), p.decisions...), Choices: copyChoices(p.res.Choices), Solver: who}
 		f.Inputs = p.lastModel
 		p.res.Findings = append(p.res.Findings, f)
 		panic(pathAbort{kind: abortViolation, msg: "assertion " + site + " violated"})
@@ -354,7 +364,7 @@ func (p *pathState) checkAssert(site string, c *smt.Term, msg string) {
 		}
 		r, who := p.decide([]*smt.Term{neg, k.region})
 		if r == smt.Sat {
-			f := Finding{Site: site, Kind: "assert", Msg: msg, KnownID: k.id, Decisions: append([]int(nil), p.decisions...), Solver: who}
+			f := Finding{Site: site, Kind: "assert", Msg: msg, KnownID: k.id, Decisions: append([]int(nil), p.decisions...), Choices: copyChoices(p.res.Choices), Solver: who}
 			f.Inputs = p.lastModel
 			p.res.Known = append(p.res.Known, f)
 		} else if r == smt.Unknown {
@@ -414,7 +424,7 @@ func (p *pathState) finish() {
 	r, who := p.decide([]*smt.Term{viol})
 	switch r {
 	case smt.Sat:
-		f := Finding{Site: "overflow", Kind: "overflow", Msg: "integer overflow / lossy conversion reachable", Decisions: append([]int(nil), p.decisions...), Solver: who, Inputs: p.lastModel}
+		f := Finding{Site: "overflow", Kind: "overflow", Msg: "integer overflow / lossy conversion reachable", Decisions: append([]int(nil), p.decisions...), Choices: copyChoices(p.res.Choices), Solver: who, Inputs: p.lastModel}
 		p.res.Findings = append(p.res.Findings, f)
 		p.res.Outcome = "overflow"
 	case smt.Unknown:
@@ -436,4 +446,12 @@ func trimMsg(s string) string {
 		return s[:2000]
 	}
 	return s
+}
+
+func copyChoices(m map[string]int) map[string]int {
+	out := map[string]int{}
+	for k, v := range m {
+		out[k] = v
+	}
+	return out
 }
